@@ -436,7 +436,19 @@ class CaseOracle:
         if best != () and len(path.split("/")) == len(m.bps[best]["prefix"].split("/")):
             cause = "path_equals_nest_prefix"
         exp = {"kind": "fallback", "fb": self.nearest_fallback(best), "allow": None, "status": 404, "cause": cause}
-        if not m.bps[best]["fallback"]:
+        if m.bps[best]["domain"] is not None:
+            # inside a domain the documentation only says that the top-level fallback runs when *no guard* matches; which
+            # fallback owns an unmatched path below a matching guard is not specified: accept any fallback registered in
+            # that domain's subtree or inherited from an enclosing blueprint
+            dom_root = best
+            while m.bps[dom_root]["parent"] is not None and not m.bps[dom_root].get("own_domain"):
+                dom_root = m.bps[dom_root]["parent"]
+            ok = set(self.nearest_fallback(s) for s in m.ancestors(best))
+            for scope, b in m.bps.items():
+                if scope[:len(dom_root)] == dom_root and b["fallback"]:
+                    ok.add(b["fallback"])
+            exp["fb_ok"] = sorted(ok)
+        elif not m.bps[best]["fallback"]:
             # the covering blueprint registers no fallback itself: the documentation does not say whether the fallback it
             # inherits for its routes also owns its prefix; accept the fallback of any enclosing blueprint
             exp["fb_ok"] = sorted(set(self.nearest_fallback(s) for s in m.ancestors(best)))
